@@ -206,7 +206,7 @@ def run_check(mod, tier: str, seed: int, jobs: int, cap_s: float | None = None) 
         it = (_call_shard((modname, s)) for s in order)
         pool = None
     else:
-        pool = ctx.Pool(min(jobs, len(order)), initializer=_worker_init)
+        pool = ctx.Pool(min(jobs, len(order)), initializer=_worker_init, maxtasksperchild=1 if getattr(mod, 'FRESH_WORKER_PER_SHARD', False) else None)
         it = pool.imap_unordered(_call_shard, [(modname, s) for s in order], chunksize=1)
     try:
         while True:
